@@ -260,6 +260,8 @@ def main():
                                                       "seeded random inputs (bounded, not counted as proved)"}
         if "samples" not in cov or not cov["samples"]:
             cov["samples"] = [r["name"] for r in t1.get("results", [])[:3]]
+    if not cov.get("samples"):
+        cov["samples"] = ["(no case could be sampled on this run)"]
     cov["explanation"] = (
         "T1 = deductive obligations generated from the current /repo source (proved for all inputs under the listed "
         "assumptions); T2 = bounded stand-in (run-time contracts + definitional oracle on the real code over the stated "
